@@ -332,13 +332,13 @@ pub fn measure_build(c: &Cfg, n: u64) -> Meas {
     mem::reset();
     let mut m = match c.kind {
         "set" | "map" => {
-            let mut b = Builder::verif_new_type_with_cache(DiscardSink::for_seed(c.seed), 0, c.rows, c.cols).unwrap();
+            let mut b = crate::hooks::builder_with_cache(DiscardSink::for_seed(c.seed), 0, c.rows, c.cols);
             // The hook builds the default 10000 x 2 registry first and then replaces it (a transient
             // of 960000 bytes that `Builder::new` does not have): the peak is taken from the moment
             // the hook returns, starting at the bytes the finished builder holds.
             let peak_new = mem::current().max(0) as u64;
             mem::reset_peak();
-            let h = b.verif_cache_stats_handle();
+            let h = crate::hooks::stats_handle(&b).unwrap_or_else(|| std::panic::panic_any(crate::hooks::NoHook));
             for i in 0..n {
                 let k = g.next();
                 let r = if c.kind == "map" { b.insert(k, value_of(i)) } else { b.add(k) };
@@ -426,7 +426,8 @@ pub fn measure_build(c: &Cfg, n: u64) -> Meas {
 pub fn measure_build_buffering(family: Family, n: u64, fanout: u64, keylen: usize, seed: u64) -> u64 {
     let mut g = KeyGen::new(family, n, fanout, keylen, seed);
     mem::reset();
-    let mut b = Builder::verif_new_type_with_cache(Vec::new(), 0, 100, 2).unwrap();
+    // the geometry only has to be small enough to saturate early; without hooks the default cache serves
+    let mut b = if crate::hooks::available() { crate::hooks::builder_with_cache(Vec::new(), 0, 100, 2) } else { Builder::new_type(Vec::new(), 0).unwrap() };
     mem::reset_peak();
     for _ in 0..n {
         b.add(g.next()).unwrap();
